@@ -89,6 +89,49 @@ def run_jobs(jobs, nproc=None, job_timeout=None):
     return results
 
 # --------------------------------------------------------------------------------------------
+def isolated(fn, *args, timeout=120, **kw):
+    """run fn(*args) in a forked child (native replay through ctypes: a crash or hang of the real code must not take the
+    check down).  Returns fn's (picklable) result, or a string describing the crash / hang."""
+    import pickle, signal, select
+    r, w = os.pipe()
+    pid = os.fork()
+    if pid == 0:
+        code = 0
+        try:
+            os.close(r)
+            data = pickle.dumps(fn(*args, **kw))
+            with os.fdopen(w, "wb") as f: f.write(data)
+        except BaseException as e:
+            try:
+                with os.fdopen(w, "wb") as f: f.write(pickle.dumps(RuntimeError("replay error: %r" % (e,))))
+            except Exception: pass
+            code = 3
+        os._exit(code)
+    os.close(w)
+    buf = b""; t0 = time.time(); hung = False
+    with os.fdopen(r, "rb") as f:
+        while True:
+            left = timeout - (time.time() - t0)
+            if left <= 0: hung = True; break
+            rd, _, _ = select.select([f], [], [], left)
+            if not rd: hung = True; break
+            chunk = os.read(f.fileno(), 65536)
+            if not chunk: break
+            buf += chunk
+    if hung:
+        try: os.kill(pid, signal.SIGKILL)
+        except OSError: pass
+        os.waitpid(pid, 0)
+        return "the real code does not return within %d s on this input" % timeout
+    _, status = os.waitpid(pid, 0)
+    if os.WIFSIGNALED(status):
+        sig = os.WTERMSIG(status)
+        return "the real code crashes on this input (signal %d%s)" % (sig, ": SIGSEGV" if sig == 11 else (": SIGABRT" if sig == 6 else ""))
+    if not buf: return None
+    res = pickle.loads(buf)
+    if isinstance(res, Exception): raise res
+    return res
+
 def load_known():
     p = os.path.join(VERIF, "known_findings.json")
     if not os.path.exists(p): return {"findings": [], "fixed": []}
